@@ -22,7 +22,7 @@ GRV_CMD(gdl) {
         TableFace tf;
         { std::vector<uint8_t> b = unhex((*v)["font_hex"].s); if (!tf.load_mem(std::string((const char *)b.data(), b.size()))) { fprintf(stderr, "bad font bytes\n"); return 2; } }
         const int rtl = int(v->get("rtl", 0));
-        const unsigned opts = unsigned(g_cases % 8);
+        const unsigned opts = v->has("opts") ? unsigned((*v)["opts"].num()) : unsigned(g_cases % 8);
         gr_face *face = tf.make(opts);
         if (!face) { ++loadfail; vj::W w; w.str("id", id).raw("prog", "null"); report_fail(v->has("must_load") && !(*v)["must_load"].truth() ? "none" : "C06", "a font compiled from a well-formed rule program failed to load", w.done()); continue; }
         std::vector<uint32_t> cps; for (auto &g : (*v)["text"].a) cps.push_back(uint32_t(96 + g->num()));
@@ -33,7 +33,7 @@ GRV_CMD(gdl) {
             gr_segment *seg = gr_make_seg(0, face, 0, 0, gr_utf32, cps.data(), cps.size(), dir);
             if (!seg) { ++nullsegs; if (!nocompare) { vj::W w; w.str("id", id); report_fail("C06", "gr_make_seg returned NULL for a progress-only rule program", w.done()); } continue; }
             SegP p = project(seg, face, 0, true);
-            if (!p.wf.empty()) { vj::W w; w.str("id", id).i("dir", dir); report_fail(p.wfprop.c_str(), p.wf, w.done()); }
+            if (!p.wf.empty()) { vj::W w; w.str("id", id).i("dir", dir); if (getenv("GRV_DUMP")) w.str("got", dump_json(p)); report_fail(p.wfprop.c_str(), p.wf, w.done()); }
             if (p.nslots > 64 * std::max<size_t>(cps.size(), 1)) { vj::W w; w.str("id", id); report_fail("C02", "more than 64 slots per input character", w.done()); }
             if (!nocompare && dir == rtl) {
                 ++compared;
